@@ -91,6 +91,12 @@ class C02Monitor(C01Monitor):
 
 
 def run_case(ctx, i, rng):
+    if i == 0 and ctx.tier == "thorough":
+        # one more workload: the repository's own test suite under the same invariant monitor (harness/suite_monitor.py)
+        import signal
+        from .. import suite_run
+        suite_run.suite_case(ctx, "c02")
+        signal.alarm(300)
     policy = "EDIF" if i % 4 == 3 else "DEFAULT"
     sdn.namespace_manager.default = policy
     try:
